@@ -131,7 +131,10 @@ SPECIALS = ['\\textbf x', 'see \\label key', '\\section[short] Title', '\\def\\x
             # sizing prefixes with delimiters outside the table, next to ones inside it; zero-arity commands
             '$\\left\\| v \\right\\| \\leq \\left\\lvert x \\right\\rvert \\big\\lbrace \\bigg\\lVert$',
             '$\\left\\{ x \\mid x \\right\\} \\left\\langle a \\right\\rangle \\left\\lfloor b \\right\\rfloor \\big\\lbrack \\bigg\\langle$',
-            '\\noindent a $x \\cup y \\in z \\cap \\infty \\notin w$']
+            '\\noindent a $x \\cup y \\in z \\cap \\infty \\notin w$',
+            # declarations that a parser must not remember for later parses (kept LAST: references of the other
+            # sources are taken before this one is parsed for the first time)
+            '\\lstnewenvironment{mycode}{}{} \\newenvironment{note}{}{} \\DefineVerbatimEnvironment{e}{Verbatim}{} \\newcommand{\\x}[1]{#1}']
 OPTIONS = [{}, {'skip_envs': ('note',)}, {'skip_envs': ('mycode', 'e')}, {'tolerance': 1}, {'skip_envs': ('note', 'mycode'), 'tolerance': 1}]
 
 
